@@ -681,6 +681,19 @@ func runC14(tier string, seed int64) *Outcome {
 			res.Situations = append(res.Situations, s)
 		}
 		o.Results = append(o.Results, res)
+		// ... and where the binary takes the secret from (command line / environment over an old config file, config file,
+		// generated): a token signed with a secret that is not the one in force is refused in every configuration
+		for k := 0; k < 4; k++ {
+			idx++
+			tmp, _ := os.MkdirTemp(tmpRoot(), "pxc14-")
+			h := drv.RunSecretSourceBinaryCase(int64(k), bin, tmp)
+			os.RemoveAll(tmp)
+			res := &CaseResult{Idx: idx, Findings: h.Findings, Inconclusive: h.Inconclusive, Evaluations: h.Evaluations["C14"]}
+			for s := range h.Situations["C14"] {
+				res.Situations = append(res.Situations, s)
+			}
+			o.Results = append(o.Results, res)
+		}
 	} else {
 		o.Results = append(o.Results, &CaseResult{Idx: idx, Inconclusive: "PRUNNER_BIN not set (bin/check builds cmd/prunner from /repo)"})
 	}
